@@ -70,3 +70,43 @@ package types
 //@   property C09
 //@   requires m != nil
 //@   modifies nothing
+
+// Encoding direction: every scalar field reaches the wire message (so that decode(encode(x)) keeps it).
+//@ func transactionToPb
+//@   property C09
+//@   ensures [nil]     (t == nil) == (result == nil)
+//@   ensures [nonce]   t != nil ==> result.Nonce != nil && *result.Nonce == t.Nonce
+//@   ensures [reqid]   t != nil ==> result.RequestId != nil && *result.RequestId == t.RequestId
+//@   ensures [type]    t != nil ==> result.Type != nil && *result.Type == t.Type
+//@   ensures [edtype]  t != nil ==> result.ExtraDataType != nil && *result.ExtraDataType == t.ExtraDataType
+//@   ensures [time]    t != nil ==> result.Time != nil && *result.Time == t.Time
+//@   ensures [chainid] t != nil ==> result.ChainId != nil && *result.ChainId == t.ChainId
+//@   ensures [target]  t != nil && len(t.Target) != 0 ==> result.Target != nil && *result.Target == t.Target
+//@   ensures [data]    t != nil && len(t.Data) != 0 ==> result.Data != nil && *result.Data == t.Data
+//@   modifies nothing
+
+//@ func BlockHeaderToPb
+//@   property C09
+//@   requires h != nil
+//@   loop 0: invariant fresh(txHashes)
+//@   loop 1: invariant fresh(hashBytes2)
+//@   ensures [height] result != nil ==> result.Height != nil && *result.Height == h.Height
+//@   ensures [nonce]  result != nil ==> result.Nonce != nil && *result.Nonce == h.Nonce
+//@   ensures [qn]     result != nil ==> result.TotalQN != nil && *result.TotalQN == h.TotalQN
+//@   ensures [sig]    result != nil ==> ref(result.Signature) == ref(h.Signature) && len(result.Signature) == len(h.Signature) && ref(result.Castor) == ref(h.Castor) && ref(result.GroupId) == ref(h.GroupId) && ref(result.Random) == ref(h.Random) && ref(result.ExtraData) == ref(h.ExtraData)
+//@   modifies nothing
+
+//@ func GroupToPbHeader
+//@   property C09
+//@   requires g != nil
+//@   ensures [height] result.CreateHeight != nil && *result.CreateHeight == g.CreateHeight
+//@   ensures [ext]    result.Extends != nil && *result.Extends == g.Extends
+//@   ensures [refs]   ref(result.Parent) == ref(g.Parent) && ref(result.PreGroup) == ref(g.PreGroup) && ref(result.CreateBlockHash) == ref(g.CreateBlockHash)
+//@   modifies nothing
+
+//@ func GroupToPb
+//@   property C09
+//@   requires g != nil ==> g.Header != nil
+//@   ensures [height] g != nil ==> result.GroupHeight != nil && *result.GroupHeight == g.GroupHeight
+//@   ensures [refs]   g != nil ==> ref(result.Id) == ref(g.Id) && ref(result.PubKey) == ref(g.PubKey) && ref(result.Signature) == ref(g.Signature) && ref(result.Members) == ref(g.Members)
+//@   modifies nothing
